@@ -210,6 +210,7 @@ pub enum Node {
 #[derive(Clone, Debug, Default)]
 pub struct Graph {
     pub nodes: Vec<Node>,
+    prims: BTreeMap<Prim, TId>,
 }
 
 #[derive(Debug, Clone, PartialEq, Eq)]
@@ -223,7 +224,7 @@ pub enum GraphErr {
 
 impl Graph {
     pub fn new() -> Graph {
-        Graph { nodes: vec![] }
+        Graph { nodes: vec![], prims: BTreeMap::new() }
     }
     pub fn add(&mut self, n: Node) -> TId {
         self.nodes.push(n);
@@ -231,10 +232,14 @@ impl Graph {
     }
     pub fn prim(&mut self, p: Prim) -> TId {
         // share primitive nodes
-        if let Some(i) = self.nodes.iter().position(|n| *n == Node::Prim(p)) {
-            return i;
+        if let Some(i) = self.prims.get(&p) {
+            if self.nodes.get(*i) == Some(&Node::Prim(p)) {
+                return *i;
+            }
         }
-        self.add(Node::Prim(p))
+        let i = self.add(Node::Prim(p));
+        self.prims.insert(p, i);
+        i
     }
     pub fn node(&self, t: TId) -> &Node {
         &self.nodes[t]
